@@ -2,8 +2,10 @@ import TapkeeVerif.Model.Util
 import TapkeeVerif.Model.FibHeap
 import TapkeeVerif.Model.FibHeapSpec
 /-! Line-protocol driver for the Fibonacci-heap model (DESIGN §11).
-    in : `heap cap=7 ops=i:3:5,i:1:5,d:3:2,x,c,g:3 [dn=4]`
-    out: `dn=3 | s1 s2 s2 x1:5:1 s0 g-`   (`ERR:oob` / `ERR:corrupt` ends the history) -/
+    in : `heap cap=7 ops=i:3:5,i:1:5,d:3:2,x,c,g:3 [dn=4] [trace=1] [dump=1]`
+    out: `dn=3 | s1 s2 s2 x1:5:1 s0 g- | r=0 n=0 m=0 t=0 [| idx:parent:rank:marked:key …]`
+    (`ERR:oob` / `ERR:corrupt` ends the history; `r n m t` = max rank, stored nodes, marked nodes, trees;
+     `trace=1` appends `/r:n:m` to every token) -/
 open TapkeeVerif TapkeeVerif.FibHeap TapkeeVerif.Util
 
 def parseOp (s : String) : Option Op :=
@@ -22,13 +24,41 @@ def showOut : Out → String
   | .key none => "g-"
   | .key (some k) => s!"g{k}"
 
-def runShow (h : Heap) : List Op → List String
-  | [] => []
+/-! structure observers (what the harness reads from the real heap's protected members) -/
+
+def maxRankF : F → Nat
+  | .nil => 0
+  | .cons _ _ r _ kids rest => max r (max (maxRankF kids) (maxRankF rest))
+
+def marksF : F → Nat
+  | .nil => 0
+  | .cons _ _ _ m kids rest => (if m then 1 else 0) + marksF kids + marksF rest
+
+/-- `(idx, parent, rank, marked, key)` of every node; `parent = -1` for roots -/
+def dumpF (parent : Int) : F → List (Nat × Int × Nat × Bool × Int)
+  | .nil => []
+  | .cons i k r m kids rest => (i, parent, r, m, k) :: (dumpF i kids ++ dumpF parent rest)
+
+def shortSummary (h : Heap) : String :=
+  s!"/{maxRankF h.forest}:{h.forest.size}:{marksF h.forest}"
+
+def summary (h : Heap) : String :=
+  s!"r={maxRankF h.forest} n={h.forest.size} m={marksF h.forest} t={h.numTrees}"
+
+def dumpHeap (h : Heap) : String :=
+  let ns := (dumpF (-1) h.forest).mergeSort (fun a b => a.1 ≤ b.1)
+  String.join (ns.map fun (i, p, r, m, k) => s!" {i}:{p}:{r}:{if m then 1 else 0}:{k}")
+
+/-- output tokens and the final heap (`none` after an error state) -/
+def runShow (trace : Bool) (h : Heap) : List Op → List String × Option Heap
+  | [] => ([], some h)
   | op :: ops =>
     match step h op with
-    | .error .oob => ["ERR:oob"]
-    | .error .corrupt => ["ERR:corrupt"]
-    | .ok (h', o) => showOut o :: runShow h' ops
+    | .error .oob => (["ERR:oob"], none)
+    | .error .corrupt => (["ERR:corrupt"], none)
+    | .ok (h', o) =>
+      let (ts, hf) := runShow trace h' ops
+      ((showOut o ++ (if trace then shortSummary h' else "")) :: ts, hf)
 
 def parseOut (s : String) : Option Out :=
   if s.startsWith "s" then (s.drop 1).toString.toNat?.map .size
@@ -64,7 +94,13 @@ def answer (line : String) : String :=
     | none => "bad-op"
     | some ops =>
       let dn := (field? fs "dn" >>= String.toNat?).getD (dnOf cap)
-      s!"dn={dn} | " ++ String.intercalate " " (runShow (Heap.init cap dn) ops)
+      let trace := field? fs "trace" == some "1"
+      let dump := field? fs "dump" == some "1"
+      let (ts, hf) := runShow trace (Heap.init cap dn) ops
+      let head := s!"dn={dn} |" ++ String.join (ts.map (" " ++ ·))
+      match hf with
+      | none => head
+      | some h => head ++ " | " ++ summary h ++ (if dump then " |" ++ dumpHeap h else "")
   | _, _ => "bad-case"
 
 def main : IO Unit := runLines answer
